@@ -22,12 +22,19 @@
 // Request histories (history.go): besides the single-request cases (fresh cluster per case), sequences of 2 (quick) /
 // 2-3 (thorough) requests are sent to the SAME receiving node of ONE long-lived cluster of 2-3 nodes, with one
 // membership/registry transition between consecutive requests (peer unhealthy / failed / healthy again, writer
-// promoted or demoted, peer unregistered / registered, recorded role changed, peer restarted with another role), applied
-// through the registry's production mutation paths; every request is judged against the cluster as it stands then.
+// promoted or demoted, peer unregistered / registered, recorded role changed, peer restarted with another role, peer
+// crashed without any registry noticing), applied through the registry's production mutation paths; every request is judged against the cluster as it stands then.
 // This covers routing state carried from one request to the next (cached targets, negative caches, rotation state).
 //
 // Oracle (judge): incapable-node-processed, forwarded-more-than-once, processed-more-than-once,
-// capable-receiver-did-not-serve, success-without-processing / error-but-processed, not-forwarded-to-capable-peer.
+// capable-receiver-did-not-serve, success-without-processing / error-but-processed, not-forwarded-to-capable-peer,
+// and - where forwards are ADDRESSED, from the per-node inbound observation - forward-delivered-to-incapable-node (an
+// inter-node delivery may only arrive at a member whose role as recorded in the registries can serve the request kind)
+// and forward-delivered-to-several-nodes (all deliveries of one client request arrive at one and the same node).
+// The routers run with RouterConfig.Retries left at 0 (NewRouter's production default, read back through Router.Stats
+// and recorded), so that a peer that is recorded healthy but refuses connections (crashed-undetected, or "crash" in a
+// history) drives the real retry loop of Router.forwardRequest; router.go's clock is virtual (overlay "time"), so a
+// back-off between attempts takes no wall time.
 // Violations are minimised (drop header, drop peers, reset attributes) to a class signature
 // "<oracle>|<kind>|hdr=..|recv=..|peers=[..]"; a failure that needs a history (the last request alone, on a fresh cluster
 // in the final state, does not fail) to "<oracle>|history|<req>;<transition>(peerK[,role]);<req>|hdr=absent|recv=..|peers=[..]"
@@ -68,6 +75,7 @@ import (
 	"github.com/basekick-labs/arc/internal/storage"
 	"github.com/basekick-labs/arc/zzverif/engine/ev"
 	"github.com/basekick-labs/arc/zzverif/hx"
+	"github.com/basekick-labs/arc/zzverif/shim/vclock"
 	"github.com/gofiber/fiber/v2"
 	"github.com/rs/zerolog"
 	"github.com/valyala/fasthttp/fasthttputil"
@@ -312,6 +320,12 @@ type chassis struct {
 	down [maxNodes]atomic.Bool
 	open [maxNodes]atomic.Int64
 	seq  int64 // case counter -> unique cid
+	rlog routerLog
+	// forward attempts that failed with a transport error the harness did not inject (case re-executed, never judged)
+	fwdTransportErrs    int64
+	lastFwdTransportErr string
+	// Retries of the routers as NewRouter configured them (RouterConfig.Retries left at 0 = production default)
+	retries int
 	// end-to-end reconciliation of the stores
 	expectStore map[string]int // cid -> node index whose WAL saw it
 	sinceFlush  int
@@ -328,6 +342,7 @@ type chassis struct {
 	lastTransportErr string
 }
 
+const routerTimeout = 10 * time.Minute // longer than the harness client's own 60 s: a case that slow is re-executed, never judged
 const caseHeader = "X-C30-Case"
 const maxInboundPerCase = 6
 const markerMeas = "c30marker"
@@ -426,7 +441,7 @@ func newChassis(id int, root string) (*chassis, error) {
 				}
 			}
 			ch.dialFails.Add(1)
-			return nil, &net.OpError{Op: "dial", Net: network, Err: errors.New("connection refused (node is down)")}
+			return nil, &net.OpError{Op: "dial", Net: network, Err: errors.New(injectedRefusal)}
 		},
 		MaxIdleConns: 64, MaxIdleConnsPerHost: 8, IdleConnTimeout: time.Hour, DisableCompression: true,
 	}
@@ -524,6 +539,72 @@ func parseShow(b []byte) (int, bool) {
 	return who, true
 }
 
+// routerLog collects what the routers of one chassis log at warn level and above (production logging: zerolog). It is
+// used for ONE purpose: to recognise a case in which the forwarding router's own HTTP client reported a transport
+// error that the harness did not inject (see fwdTransportErrors) - such a case is re-executed, never judged.
+type routerLog struct {
+	mu  sync.Mutex
+	buf bytes.Buffer
+}
+
+func (l *routerLog) Write(p []byte) (int, error) {
+	l.mu.Lock()
+	defer l.mu.Unlock()
+	if l.buf.Len() < 1<<20 {
+		l.buf.Write(p)
+	}
+	return len(p), nil
+}
+
+func (l *routerLog) take() []byte {
+	l.mu.Lock()
+	defer l.mu.Unlock()
+	if l.buf.Len() == 0 {
+		return nil
+	}
+	b := append([]byte{}, l.buf.Bytes()...)
+	l.buf.Reset()
+	return b
+}
+
+var debugRouterLog = os.Getenv("VERIF_C30_ROUTERLOG") != "" // debugging aid: print what the routers logged in each request
+
+const injectedRefusal = "connection refused (node is down)"
+
+// fwdTransportErrors returns the errors of failed forward attempts (Router.forwardRequest: "Forward attempt failed")
+// that come from the router's http.Client itself (a *url.Error, rendered `Post "http://...": ...`) and are not the
+// dial refusal the harness injects for unreachable nodes: a response that could not be read or parsed, a broken or
+// stale pooled connection, a client timeout. These are transport faults around a delivery - outside this check's
+// space - and they do happen on the unchanged tree: the Arrow endpoint writes its execution-time trailer into the
+// response header object while fasthttp may still be serialising the head (the race that also breaks the harness
+// client's own connection now and then), and any endpoint can exceed a timeout on an overloaded machine. An error the
+// router produced itself (for instance from a status code) is not rendered that way and is never excused.
+func fwdTransportErrors(log []byte) []string {
+	var out []string
+	for _, line := range bytes.Split(log, []byte{'\n'}) {
+		if len(line) == 0 {
+			continue
+		}
+		var e struct {
+			Message string `json:"message"`
+			Error   string `json:"error"`
+		}
+		if json.Unmarshal(line, &e) != nil || e.Message != "Forward attempt failed" {
+			continue
+		}
+		if strings.Contains(e.Error, injectedRefusal) {
+			continue
+		}
+		for _, m := range []string{"Post \"http://", "Get \"http://"} {
+			if strings.HasPrefix(e.Error, m) {
+				out = append(out, e.Error)
+				break
+			}
+		}
+	}
+	return out
+}
+
 type trackedConn struct {
 	net.Conn
 	n    *atomic.Int64
@@ -584,6 +665,9 @@ func (ch *chassis) do(target int, method, path, ct string, body []byte, hdr map[
 	}
 	defer resp.Body.Close()
 	b, err := io.ReadAll(resp.Body)
+	if debugRouterLog && len(resp.Trailer) > 0 {
+		fmt.Fprintf(os.Stderr, "response trailer of %s: %v\n", path, resp.Trailer)
+	}
 	return resp.StatusCode, b, err
 }
 
@@ -692,7 +776,18 @@ func (ch *chassis) wireNode(lc *liveCluster, nodes []nodeCfg, i int) {
 			ev.Unbound("registry.Register: " + err.Error())
 		}
 	}
-	r := cluster.NewRouter(&cluster.RouterConfig{Registry: reg, LocalNode: local, Logger: zerolog.Nop(), Transport: ch.tr})
+	// Retries stays 0 = NewRouter's production default. Timeout is the one knob that is set: it is enforced by net/http on
+	// the REAL clock (production default 5 s), and on a heavily loaded machine a forward that was delivered and is being
+	// served can exceed it, whereupon Router.forwardRequest sends the request again (a transport fault after delivery:
+	// outside this check's space, see the assumptions) - the wall clock must not decide a verdict.
+	r := cluster.NewRouter(&cluster.RouterConfig{Registry: reg, LocalNode: local, Logger: zerolog.New(&ch.rlog).Level(zerolog.WarnLevel), Transport: ch.tr, Timeout: routerTimeout})
+	if ch.retries == 0 {
+		if v, ok := r.Stats()["retries"].(int); ok {
+			ch.retries = v
+		} else {
+			ch.retries = -1
+		}
+	}
 	lc.locals[i], lc.regs[i], lc.routers[i] = local, reg, r
 	ch.wire(ch.nodes[i], r)
 }
@@ -777,6 +872,7 @@ func (ch *chassis) request(c caseCfg) obs {
 		hdr = map[string][]string{"x-arc-forwarded-by": {"not-a-node"}}
 	}
 	ch.caseInbound.Store(0)
+	ch.rlog.take()
 	ch.cur.Store(cid)
 	st, rb, err := ch.do(0, method, path, ct, body, hdr)
 	// quiescence: nothing of this case may still be running inside a node when its effects are read
@@ -791,6 +887,15 @@ func (ch *chassis) request(c caseCfg) obs {
 	o := obs{Status: st, Inbound: make([][]inboundRec, N), Proc: make([]int, N), ExecNode: -1, DialFail: ch.dialFails.Load() - df0}
 	if err != nil {
 		o.Err = err.Error()
+	}
+	rl := ch.rlog.take()
+	if debugRouterLog && len(rl) > 0 {
+		fmt.Fprintf(os.Stderr, "router log of %s:\n%s", c, rl)
+	}
+	if fe := fwdTransportErrors(rl); len(fe) > 0 && o.Err == "" {
+		ch.fwdTransportErrs++
+		ch.lastFwdTransportErr = fe[0]
+		o.Err = "transport error on the forwarding hop: " + fe[0]
 	}
 	if len(rb) > 400 {
 		o.Body = string(rb[:400])
@@ -1164,6 +1269,53 @@ func judge(c caseCfg, o obs) []finding {
 			}
 		}
 	}
+	// F1/F2: WHERE forwards are addressed ("otherwise forwarded once to a capable peer"), judged from the per-node inbound
+	// observation alone. An inter-node delivery is every inbound request of a peer (the client talks to node 0 only) and
+	// every inbound request of node 0 after the client's own. Every delivery must arrive at a node that is a member of
+	// the forwarding node's registry with a RECORDED role able to serve this request kind (whatever the node really is:
+	// a stale record is the registry's business, addressing by it is correct), and all deliveries of one client request
+	// must arrive at one and the same node (retries against the same target are fine; S2 counts hops).
+	{
+		var bad, targets []string
+		seen := make([]bool, N)
+		ndel := 0
+		for j := 0; j < N; j++ {
+			for k, in := range o.Inbound[j] {
+				if j == 0 && k == 0 {
+					continue // the client's own request
+				}
+				ndel++
+				if !seen[j] {
+					seen[j] = true
+					targets = append(targets, fmt.Sprintf("node-%d (%s)", j, c.Nodes[j]))
+				}
+				rec := c.Nodes[j].Rec
+				if in.Has && in.FwdBy == nodeID(j) {
+					rec = c.Nodes[j].Real // a node's own registry entry is its LocalNode
+				}
+				by := "unmarked"
+				if in.Has {
+					by = in.FwdBy
+				}
+				switch {
+				case c.Nodes[j].Gone:
+					bad = append(bad, fmt.Sprintf("node-%d (%s), which is not a member of any registry, received it from %s", j, c.Nodes[j], by))
+				case !specCan(rec, isW):
+					bad = append(bad, fmt.Sprintf("node-%d (%s), recorded in the registries as %s, received it from %s", j, c.Nodes[j], roleName[rec], by))
+				}
+			}
+		}
+		if len(bad) > 0 {
+			what := "query"
+			if isW {
+				what = "write"
+			}
+			out = append(out, finding{"forward-delivered-to-incapable-node", fmt.Sprintf("a forwarded %s was delivered to a node whose recorded role cannot serve it: %s; %s", what, bad[0], chain())})
+		}
+		if len(targets) > 1 {
+			out = append(out, finding{"forward-delivered-to-several-nodes", fmt.Sprintf("one client request was delivered by forwarding to %d different nodes (%s) in %d deliveries; %s", len(targets), strings.Join(targets, ", "), ndel, chain())})
+		}
+	}
 	if !isW && ok2xx(o.Status) && !o.CidEcho {
 		out = append(out, finding{"unrecognised-answer", "a success answer that is not the answer to this request: " + fmt.Sprintf("%.160q; ", o.Body) + chain()})
 	}
@@ -1195,6 +1347,7 @@ type spaceDef struct {
 	cases     int64
 	nontriv   int64
 	Desc      string
+	First     bool // small space scheduled before everything else (so that a time cap never drops it)
 	peerLabel string
 	recvLabel string
 }
@@ -1332,6 +1485,19 @@ func spaces(quick bool) []*spaceDef {
 	const recvFull = "receiving node {4 roles x router wired/absent x recorded by the others as any role (writer: primary/standby/none) x recorded healthy/unhealthy/dead}"
 	const peerFull = "peer {4 real roles x recorded as any of the 4 roles (writer: primary/standby/none) x healthy/unhealthy/failed/crashed-undetected}"
 	const peerCons = "peer {4 roles recorded correctly (writer: primary/standby/none) x healthy/unhealthy/failed/crashed-undetected}"
+	// forward retry/failover spaces: the receiving nodes that ever forward (a reader or a compactor with a router; a
+	// receiving node that can serve the request, or has no router, never looks at its peers: S4, covered by the other
+	// spaces) next to peers that are recorded healthy and are reachable or crashed-undetected, i.e. every configuration
+	// in which the peer the router selects refuses the connection while other healthy peers (capable or not) exist
+	hx := []byte{'h', 'x'}
+	var forwarding []nodeCfg
+	for _, r := range recvSet(false, h1) {
+		if r.Router && (r.Real == 'R' || r.Real == 'C') {
+			forwarding = append(forwarding, r)
+		}
+	}
+	const recvFwd = "receiving node {reader, compactor; router wired; recorded by the others as {its real role, primary writer, reader}}"
+	const peerHX = "peer {4 roles recorded correctly (writer: primary/standby/none) x recorded healthy and reachable / recorded healthy but refusing connections (crashed-undetected)}"
 	add(&spaceDef{Name: "N1", N: 1, Recv: solo, MaxStale: -1, Kinds: allKinds, Hdrs: allHdrs, Desc: "1 node: 4 roles x router wired/absent"})
 	if quick {
 		add(&spaceDef{Name: "N2", N: 2, Recv: recvSet(false, h1), Peers: peerSet(h4, false), MaxStale: -1, Kinds: routedKinds, Hdrs: allHdrs,
@@ -1351,6 +1517,8 @@ func spaces(quick bool) []*spaceDef {
 		}
 		add(&spaceDef{Name: "N4", N: 4, Recv: wired, Peers: peerSet(h4, true), MaxStale: 0, Kinds: cheapKinds, Hdrs: mainHdrs,
 			Desc: "4 nodes, consistent registries: receiving node {4 roles, router wired; a writer also as recorded primary} x every multiset of 3 x " + peerCons})
+		add(&spaceDef{Name: "N3-failover", N: 3, Recv: forwarding, Peers: peerSet(hx, true), MaxStale: -1, Kinds: allKinds, Hdrs: []int{hAbsent}, First: true,
+			Desc: "3 nodes, forward retry/failover, EVERY request kind: " + recvFwd + " x every multiset of 2 x " + peerHX})
 	} else {
 		add(&spaceDef{Name: "N2", N: 2, Recv: recvSet(true, h3), Peers: peerSet(h4, false), MaxStale: -1, Kinds: routedKinds, Hdrs: allHdrs,
 			Desc: "2 nodes: " + recvFull + " x " + peerFull})
@@ -1360,10 +1528,14 @@ func spaces(quick bool) []*spaceDef {
 			Desc: "3 nodes: " + recvLite + " x every multiset of 2 x " + peerFull + ", any staleness"})
 		add(&spaceDef{Name: "N3-endpoints", N: 3, Recv: recvSet(false, h1), Peers: peerSet(h3, true), MaxStale: 0, Kinds: siblingKinds, Hdrs: mainHdrs,
 			Desc: "3 nodes, sibling endpoints, consistent registries: receiving node {4 roles x router wired/absent} x every multiset of 2 peers {4 roles x healthy/unhealthy/failed}"})
+		add(&spaceDef{Name: "N3-failover", N: 3, Recv: recvSet(false, h1), Peers: peerSet(h4, true), MaxStale: -1, Kinds: allKinds, Hdrs: mainHdrs,
+			Desc: "3 nodes, forward retry/failover, EVERY request kind: " + recvLite + " x every multiset of 2 x " + peerCons})
 		add(&spaceDef{Name: "N4", N: 4, Recv: recvSet(false, h1), Peers: peerSet(h4, false), MaxStale: 2, Kinds: cheapKinds, Hdrs: mainHdrs,
 			Desc: "4 nodes: " + recvLite + " x every multiset of 3 x " + peerFull + ", at most two nodes with a stale recorded role"})
 		add(&spaceDef{Name: "N4-select", N: 4, Recv: recvSet(false, h1), Peers: peerSet(h3, false), MaxStale: 1, Kinds: []int{kQuery}, Hdrs: twoHdrs,
 			Desc: "4 nodes, executed SELECT: peers healthy/unhealthy/failed, at most one stale node"})
+		add(&spaceDef{Name: "N4-failover", N: 4, Recv: forwarding, Peers: peerSet(hx, true), MaxStale: -1, Kinds: allKinds, Hdrs: []int{hAbsent}, First: true,
+			Desc: "4 nodes, forward retry/failover, EVERY request kind: " + recvFwd + " x every multiset of 3 x " + peerHX})
 	}
 	return sp
 }
@@ -1380,6 +1552,82 @@ func nontrivial(c caseCfg) bool {
 		}
 	}
 	return false
+}
+
+// failoverTrap: the receiving node has to forward (no client marker), some member recorded healthy with a recorded role
+// able to serve the request refuses connections (crashed-undetected), and some other member recorded healthy and
+// reachable has a recorded role that cannot serve it: the configurations in which a retry that leaves the selected
+// peer can end up at an incapable node.
+func failoverTrap(c caseCfg) bool {
+	if capable(c, 0) || c.Hdr != hAbsent {
+		return false
+	}
+	isW := kinds[c.Kind].IsWrite
+	x, bad := false, false
+	for _, p := range c.Nodes[1:] {
+		if p.Gone {
+			continue
+		}
+		if p.Health == 'x' && specCan(p.Rec, isW) {
+			x = true
+		}
+		if p.Health == 'h' && !specCan(p.Rec, isW) {
+			bad = true
+		}
+	}
+	return x && bad
+}
+
+// fwdStats: what the forward-addressing clauses saw (per worker, merged at the end).
+type fwdStats struct {
+	Deliveries   int64            // inter-node deliveries judged by F1/F2
+	Refused      [10]int64        // requests by number of refused forward attempts (index 9 = 9 or more)
+	Trap         map[string]int64 // failoverTrap requests by request kind
+	TrapSelected map[string]int64 // ... in which the crashed peer was selected (>= 1 refused attempt)
+	TrapRetried  map[string]int64 // ... and the router tried again (>= 2 refused attempts or a delivery after a refusal)
+}
+
+func newFwdStats() *fwdStats {
+	return &fwdStats{Trap: map[string]int64{}, TrapSelected: map[string]int64{}, TrapRetried: map[string]int64{}}
+}
+
+func (f *fwdStats) add(c caseCfg, o obs) {
+	if o.Forwards > 0 {
+		f.Deliveries += int64(o.Forwards)
+	}
+	d := o.DialFail
+	if d > 9 {
+		d = 9
+	}
+	if d >= 0 {
+		f.Refused[d]++
+	}
+	if failoverTrap(c) {
+		k := kinds[c.Kind].Name
+		f.Trap[k]++
+		if o.DialFail >= 1 {
+			f.TrapSelected[k]++
+			if o.DialFail >= 2 || o.Forwards > 0 {
+				f.TrapRetried[k]++
+			}
+		}
+	}
+}
+
+func (f *fwdStats) merge(g *fwdStats) {
+	f.Deliveries += g.Deliveries
+	for i := range f.Refused {
+		f.Refused[i] += g.Refused[i]
+	}
+	for k, v := range g.Trap {
+		f.Trap[k] += v
+	}
+	for k, v := range g.TrapSelected {
+		f.TrapSelected[k] += v
+	}
+	for k, v := range g.TrapRetried {
+		f.TrapRetried[k] += v
+	}
 }
 
 // ---------------------------------------------------------------------------------------------
@@ -1712,6 +1960,17 @@ func main() {
 	cleanup := func() { os.RemoveAll(root) }
 	defer cleanup()
 
+	// The router's clock (internal/cluster/router.go, overlay "time") is virtual: a back-off between forward attempts
+	// (time.Sleep advances the virtual clock at once; timers are fired by the pump below) costs no wall time and no
+	// verdict depends on how long it is. Only router.go is rewritten; net/http's own deadlines stay real.
+	vclock.Install(time.Unix(1_700_000_000, 0))
+	go func() {
+		for {
+			time.Sleep(200 * time.Microsecond)
+			vclock.Advance(time.Minute)
+		}
+	}()
+
 	sp := spaces(run.Quick())
 	hsp := histSpaces(run.Quick())
 	// debugging aid (the run is then reported as not exhaustive): VERIF_C30_ONLY=hist|single
@@ -1723,7 +1982,16 @@ func main() {
 		hsp = nil
 	}
 	var items []cfgItem
-	// history configurations first: they are the larger work items
+	// the small forward retry/failover spaces come first of all (a time cap must never drop them)
+	for si, s := range sp {
+		if s.First {
+			s.expand(si, func(it cfgItem) {
+				items = append(items, it)
+				s.configs++
+			})
+		}
+	}
+	// then the history configurations: they are the larger work items
 	var totalHist, totalHistReq int64
 	for si, s := range hsp {
 		s.expand(si, func(it cfgItem) {
@@ -1740,10 +2008,12 @@ func main() {
 		fmt.Printf("history space %-8s N=%d requests/history=%d configs=%d histories=%d requests=%d\n", s.Name, s.N, s.Len, s.configs, s.histories, s.requests)
 	}
 	for si, s := range sp {
-		s.expand(si, func(it cfgItem) {
-			items = append(items, it)
-			s.configs++
-		})
+		if !s.First {
+			s.expand(si, func(it cfgItem) {
+				items = append(items, it)
+				s.configs++
+			})
+		}
 		s.cases = int64(s.configs) * int64(len(s.Kinds)) * int64(len(s.hdrsFor()))
 	}
 	var totalCases int64
@@ -1862,6 +2132,7 @@ func main() {
 	var next, evals, nontriv, indeterminate, forwarded, rejected508 atomic.Int64
 	var histDone, histReqs, histNontriv, histIndet, histTargetChanged, histFwdThenNot, histNotThenFwd, histFwdBoth atomic.Int64
 	perHistEval := make([][]int64, nw)
+	fstats := make([]*fwdStats, nw)
 	var timeUp atomic.Bool
 	outcomes := make([]map[string]int64, nw)
 	perSpaceEval := make([][]int64, nw)
@@ -1895,6 +2166,7 @@ func main() {
 	for w := 0; w < nw; w++ {
 		wg.Add(1)
 		outcomes[w] = map[string]int64{}
+		fstats[w] = newFwdStats()
 		perHistEval[w] = make([]int64, len(hsp))
 		perSpaceEval[w] = make([]int64, len(sp))
 		perSpaceNT[w] = make([]int64, len(sp))
@@ -1935,6 +2207,7 @@ func main() {
 								nreq++
 								evals.Add(1)
 								histReqs.Add(1)
+								fstats[w].add(r.Case, r.Obs)
 								if nontrivial(r.Case) {
 									nontriv.Add(1)
 									histNontriv.Add(1)
@@ -1989,6 +2262,7 @@ func main() {
 							}
 							evals.Add(1)
 							perSpaceEval[w][it.space]++
+							fstats[w].add(c, o)
 							if nontrivial(c) {
 								nontriv.Add(1)
 								perSpaceNT[w][it.space]++
@@ -2022,7 +2296,16 @@ func main() {
 		}(w)
 	}
 	wg.Wait()
-	var storeRows, tErrs, residual, broken int64
+	fwd := newFwdStats()
+	routerRetries := 0
+	for w, ch := range chs {
+		fwd.merge(fstats[w])
+		if ch.retries != 0 && (routerRetries == 0 || ch.retries < routerRetries) {
+			routerRetries = ch.retries
+		}
+	}
+	var storeRows, tErrs, residual, broken, fwdTErrs int64
+	lastFTE := ""
 	var storeBad []string
 	lastTE := ""
 	for _, ch := range chs {
@@ -2030,6 +2313,10 @@ func main() {
 		storeRows += ch.storeRows
 		storeBad = append(storeBad, ch.storeBad...)
 		tErrs += ch.transportErrs
+		fwdTErrs += ch.fwdTransportErrs
+		if ch.lastFwdTransportErr != "" {
+			lastFTE = ch.lastFwdTransportErr
+		}
 		residual += ch.residual.Load()
 		broken += ch.broken.Load()
 		if ch.lastTransportErr != "" {
@@ -2094,7 +2381,7 @@ func main() {
 		histDone.Load() == totalHist && histReqs.Load() == totalHistReq && histIndet.Load() == 0
 	run.Coverage["evaluations"] = evals.Load()
 	run.Coverage["distinct_nontrivial"] = nontriv.Load()
-	run.Coverage["rule"] = "cases = every configuration of each listed space (receiving node x every multiset of peers x staleness bound) x request kind x client X-Arc-Forwarded-By value, each executed once on real fiber apps/handlers/routers wired over in-memory HTTP; all cases are distinct by construction (canonical key = kind, header, receiver attributes, sorted peer attributes); non-trivial = the receiving node cannot serve the request itself, or the client sent a forwarding header, or some node's recorded role is stale"
+	run.Coverage["rule"] = "cases = every configuration of each listed space (receiving node x every multiset of peers x staleness bound; the N3-failover/N4-failover spaces = every forwarding receiving node x every multiset of peers recorded healthy that are reachable or refuse connections, for ALL 11 request kinds, scheduled first) x request kind x client X-Arc-Forwarded-By value, each executed once on real fiber apps/handlers/routers wired over in-memory HTTP; all cases are distinct by construction (canonical key = kind, header, receiver attributes, sorted peer attributes); non-trivial = the receiving node cannot serve the request itself, or the client sent a forwarding header, or some node's recorded role is stale"
 	run.Coverage["rule"] = run.Coverage["rule"].(string) + "; PLUS request histories: every configuration of each history space x every sequence of request kinds x every applicable transition between consecutive requests, all requests sent to the same receiving node of one long-lived cluster (routers and registries kept, changed only through Registry.UpdateNodeState/Get+Register/Register/Unregister), every request judged against the cluster state at that moment and counted as one evaluation; histories are distinct by construction (identical initial peers are interchangeable: the first transition touches only the first of them)"
 	run.Coverage["spaces"] = spaceRows
 	run.Coverage["history_spaces"] = histRows
@@ -2112,9 +2399,32 @@ func main() {
 	if lastTE != "" {
 		run.Coverage["client_transport_error_example"] = lastTE
 	}
+	run.Coverage["forwarding_hop_transport_errors_reexecuted"] = fwdTErrs // included in client_transport_errors_retried
+	if lastFTE != "" {
+		run.Coverage["forwarding_hop_transport_error_example"] = lastFTE
+	}
 	run.Coverage["stale_requests_rejected_by_harness"] = residual
 	run.Coverage["forwarding_loops_cut_by_harness"] = broken
 	run.Coverage["cases_forwarded"] = forwarded.Load()
+	run.Coverage["router_retries_configured"] = routerRetries
+	run.Coverage["forward_deliveries_judged_for_their_address"] = fwd.Deliveries
+	refused := map[string]int64{}
+	for i, v := range fwd.Refused {
+		if v > 0 {
+			k := strconv.Itoa(i)
+			if i == 9 {
+				k = "9+"
+			}
+			refused[k] = v
+		}
+	}
+	run.Coverage["requests_by_refused_forward_attempts"] = refused
+	run.Coverage["failover_trap_requests_by_kind"] = map[string]any{
+		"what":                        "requests (single-request cases and history requests) whose receiving node must forward while a member recorded healthy with a capable recorded role refuses connections (crashed-undetected) and another member recorded healthy and reachable has an incapable recorded role",
+		"all":                         fwd.Trap,
+		"crashed_peer_selected":       fwd.TrapSelected,
+		"and_forward_attempted_again": fwd.TrapRetried,
+	}
 	run.Coverage["cases_rejected_508"] = rejected508.Load()
 	run.Coverage["distinct_outcomes"] = len(merged)
 	run.Coverage["outcomes"] = merged
@@ -2134,8 +2444,11 @@ func main() {
 	run.Assume("every node's registry holds its own LocalNode plus the same recorded entry for each other node (a shared, possibly stale, membership view); per-viewer divergent views are not enumerated")
 	run.Assume("peers are interchangeable (node ids are opaque to Router/Registry), so multisets of peers are enumerated instead of tuples; which of several equally eligible peers the router picks depends on Go map order and is not controlled — the safety clauses are demanded of whatever it picks, the 'must be forwarded' clause only when every eligible pick is good")
 	run.Assume("a client header on a request that the receiving node cannot serve may be answered by an error (508) instead of a forward: the property demands no local processing and no second hop there, not success")
-	run.Assume("request histories: receiving node with a router and a correctly recorded role, no client forwarding header, 2-3 nodes, 2 (quick) / 2-3 (thorough) requests with exactly one transition between consecutive requests; an unregistered peer keeps running and stays reachable; all nodes' registries receive the same transition; the 'served by a capable peer' clause counts a peer as eligible by the registry state at the time of THAT request (member, recorded healthy, recorded role able to serve) and demands that the serving node is one of them")
-	run.Assume("transport faults after delivery (forward retried by Router.forwardRequest after a lost response) are outside the configuration space; unreachable peers refuse the connection")
+	run.Assume("request histories: receiving node with a router and a correctly recorded role, no client forwarding header, 2-3 nodes, 2 (quick) / 2-3 (thorough) requests with exactly one transition between consecutive requests; an unregistered peer keeps running and stays reachable (unless it had crashed before); crash(p) changes no registry; all nodes' registries receive the same transition; the 'served by a capable peer' clause counts a peer as eligible by the registry state at the time of THAT request (member, recorded healthy, recorded role able to serve) and demands that the serving node is one of them")
+	run.Assume("RouterConfig.Timeout (net/http client timeout on the real clock, production default 5 s) is set to 10 min so that machine load cannot turn a delivered forward into a timed-out one: observed once on a machine with load average ~250, where Router.forwardRequest re-sent a write that the peer had already ingested (processed twice) - retrying a non-idempotent forward after a lost response is at-least-once delivery and belongs to the excluded 'transport faults after delivery'")
+	run.Assume("an execution in which a forward attempt failed with an error of the router's own http.Client that the harness did not inject (recognised in the routers' warn-level log: message 'Forward attempt failed' with a url.Error-formatted error other than the injected dial refusal - unreadable/unparsable response, broken or stale pooled connection, client timeout) is re-executed like one whose client connection broke, and never judged; errors the router makes up itself are not excused")
+	run.Assume("transport faults after delivery (forward retried by Router.forwardRequest after a lost response) are outside the configuration space; unreachable peers refuse the connection (every forward attempt against them fails at dial, which runs the router's retry loop with its production default number of retries: see router_retries_configured and requests_by_refused_forward_attempts)")
+	run.Assume("forward-addressing clauses: an inter-node delivery is every inbound request of a peer and every inbound request of the receiving node after the client's own (the client talks to the receiving node only); the role a delivery is judged by is the one RECORDED for the target in the shared membership view (a target that is not a member has none), not its real role and not its health; forward attempts that are refused at dial arrive nowhere and are not judged; internal/cluster/router.go runs on a virtual clock (time.Sleep returns at once, timers are fired by a harness pump), net/http deadlines stay real")
 	run.Assume("import, delete, continuous-query and management endpoints are not request kinds of this property; auth/RBAC disabled")
 	run.Assume("inter-node HTTP runs over fasthttputil in-memory listeners through the production http.Transport type injected via RouterConfig.Transport (DialContext only); no TLS")
 	if !exhaustive {
@@ -2162,6 +2475,14 @@ func main() {
 	for _, k := range okeys {
 		fmt.Printf("  outcome %-55s %d\n", k, merged[k])
 	}
+	var trapAll, trapSel, trapRetry int64
+	for _, k := range kinds {
+		trapAll += fwd.Trap[k.Name]
+		trapSel += fwd.TrapSelected[k.Name]
+		trapRetry += fwd.TrapRetried[k.Name]
+	}
+	fmt.Printf("forward addressing: router retries=%d deliveries judged=%d refused-attempt histogram=%v failover-trap requests=%d (kinds=%d) crashed peer selected=%d retried=%d\n",
+		routerRetries, fwd.Deliveries, fwd.Refused, trapAll, len(fwd.Trap), trapSel, trapRetry)
 	fmt.Printf("C30 evaluated=%d nontrivial=%d forwarded=%d rejected508=%d outcomes=%d classes=%d exhaustive=%v cpu=%.0fs wall=%.1fs\n",
 		evals.Load(), nontriv.Load(), forwarded.Load(), rejected508.Load(), len(merged), len(sigs), exhaustive, cpuSeconds(), time.Since(t0).Seconds())
 	run.Finish()
